@@ -30,7 +30,7 @@ RULE = ('inputs: every truncation and seeded single-character corruptions (hosti
 ASSUMPTIONS = ['documented behaviour: non-str arguments raise TypeError (not generated); memory limits out of scope',
                'step budget: token deliveries + error-handler calls <= 6*len(text)+60 per parse']
 BUDGET_S = {'quick': 55, 'thorough': 1500}
-REQUIRED_HITS = ['parse', 'lexer_iter', 'message_position_checked', 'step_hook', 'blowup_probe', 'shape']
+REQUIRED_HITS = ['parse', 'lexer_iter', 'message_position_checked', 'step_hook', 'blowup_probe', 'shape', 'identifier_escape']
 FLOOR = {'quick': 20000, 'thorough': 300000}
 
 CHAR_ALPHABET = list('ab1.0xe"\'\\/*(){}[];,:?=+-<>!&|~^% \n\r\t_$') + ['\u2028', '\ufeff', '\xe9', '\u0660', '\u0301', '\u203f']
@@ -232,6 +232,20 @@ def run(ctx):
         ctx.extra['enumeration_complete'] = complete
         ctx.extra['enumeration_length'] = k
         ctx.extra['enumeration_alphabet_size'] = len(CHAR_ALPHABET)
+
+        # escape sequences in identifiers that are well formed but stand for a character that may not appear
+        # there, or are malformed, at every position of a name and on later lines (the message has to point at them)
+        if ctx.shard == 1 % ctx.nshards:
+            bad = ['\\u0020', '\\u0030', '\\u005c', '\\u002e', '\\u2028', '\\u00zz', '\\u12', '\\x41', '\\', '\\u{61}',
+                   '\\U0061']
+            for esc in bad:
+                for name in ('%s', 'a%s', 'a%sb', 'ab1%s', '\\u0061%s', 'a%s\\u0062', '$_%sx'):
+                    if name == '%s' and esc == '\\u0030':
+                        pass
+                    for ctxt in ('%s', 'x = %s;', 'var y;\n  %s = 1', 'a.%s', '/* c\n */ f(%s)', '({%s: 1})',
+                                 'x\u2028%s', '"s\\\n" + %s'):
+                        check(ctx, steps, ctxt % (name % esc), 'identifier_escape', ('parse', 'lexer'))
+                        ctx.hit('identifier_escape')
 
         # pathological shapes (shard 0 .. 3 share them)
         shapes = [
